@@ -1180,7 +1180,9 @@ def migration35(tdset):
   acl_rule_updates = []
   for acl_rule_rec in acl_rules:
     acl_formula = safe_parse(acl_rule_rec.aclFormulaParsed)
-    if not acl_formula or acl_formula[0] != 'Comment':
+    # A parsed formula with a memo is ['Comment', <formula>, <memo text>]; skip any other JSON.
+    if not (isinstance(acl_formula, list) and len(acl_formula) >= 3 and
+            acl_formula[0] == 'Comment' and isinstance(acl_formula[2], str)):
       continue
 
     acl_rule_updates.append((
